@@ -190,7 +190,12 @@ func (in *Interp) reflectPanic(msg string) *targetPanic {
 	return &targetPanic{V: Iface{T: types.Typ[types.String], V: mkStr(msg)}}
 }
 
-func (in *Interp) kindTerm(k int) *Term { return in.tf.Const(64, uint64(k)) }
+func (in *Interp) kindTerm(k int, lite bool) *Term {
+	if lite {
+		return in.tf.Const(8, uint64(k)) // internal/abi.Kind is uint8
+	}
+	return in.tf.Const(64, uint64(k))
+}
 
 func (in *Interp) registerReflectIntrinsics() {
 	r := in.intrinsics
@@ -236,7 +241,7 @@ func (in *Interp) registerReflectIntrinsics() {
 			return mkStr("")
 		}
 		r[tyRecv+".Kind"] = func(in *Interp, fr *frame, args []Value) Value {
-			return in.kindTerm(reflectKind(in.rt(args[0]).T))
+			return in.kindTerm(reflectKind(in.rt(args[0]).T), lite)
 		}
 		r[tyRecv+".Elem"] = func(in *Interp, fr *frame, args []Value) Value {
 			t := in.rt(args[0]).T
@@ -318,9 +323,9 @@ func (in *Interp) registerReflectIntrinsics() {
 		r[valRecv+".Kind"] = func(in *Interp, fr *frame, args []Value) Value {
 			v := in.rv(args[0])
 			if !v.Valid {
-				return in.kindTerm(kInvalid)
+				return in.kindTerm(kInvalid, lite)
 			}
-			return in.kindTerm(reflectKind(v.T))
+			return in.kindTerm(reflectKind(v.T), lite)
 		}
 		r[valRecv+".Type"] = func(in *Interp, fr *frame, args []Value) Value {
 			v := in.rv(args[0])
